@@ -12,7 +12,7 @@
 
    Bit i of original wire w is addressed as (w, i); `bv : wid -> nat -> bool`
    is the valuation of the synthesized block's 1-bit wires. *)
-From PyRTL Require Export Netlist.Sem Pass.BasicGates.
+From PyRTL Require Export Netlist.Sem Pass.BasicGates Gen.SynthFrags.
 
 Inductive gexp :=
 | GVar (w : wid) (i : nat)
@@ -159,7 +159,7 @@ Definition gmem_read (ms : Z -> Z -> Z) (m a : Z) : Z :=
 Definition gbase (st : gstate) (ins : wid -> Z) : wid -> nat -> bool :=
   fun w i => match find_wire (wires nl) w with
              | Some x => match wkind x with
-                         | KConst c => Z.testbit c (Z.of_nat i)
+                         | KConst c => negb (g_const_bit c (Z.of_nat i) =? 0)   (* Const(val=(c >> i) & 1) *)
                          | KInput => Z.testbit (ins w) (Z.of_nat i)
                          | KReg _ => gregs st w i
                          | _ => false
@@ -210,11 +210,11 @@ Fixpoint grun (st : gstate) (inss : list (wid -> Z)) : list (wid -> nat -> bool)
 (* ---- initial state of the synthesized block under the ORIGINAL testbench ---- *)
 
 (* reset value of synthesized register bit i of a register with reset value rv:
-   passes.synthesize gives bit i of the reset value to the i-th 1-bit register
-   (`new_rval = (new_rval >> i) & 0x1`; None stays None).  [Defect F2, now
-   repaired, was `None` here: the reset value was dropped.] *)
+   Gen/SynthFrags.v g_reset_bit, regenerated from passes.synthesize
+   (`new_rval = (new_rval >> i) & 0x1`, None stays None, handed to the 1-bit
+   Register).  [Defect F2, now repaired: no reset value was passed, i.e. None.] *)
 Definition synth_reset (rv : option Z) (i : nat) : option bool :=
-  option_map (fun v => Z.testbit v (Z.of_nat i)) rv.
+  option_map (fun z => negb (z =? 0)) (g_reset_bit rv (Z.of_nat i)).
 
 (* register_value_map translated through reg_map > reset value > default (0) *)
 Definition ginit_reg (regmap : list (Z * Z)) (r : wid) (i : nat) : bool :=
@@ -240,11 +240,13 @@ Definition ginit (regmap : list (Z * Z)) (memmap : list (Z * list (Z * Z))) : gs
 (* identity of a MemBlock object: the original, copy_block's copy, the synthesized one *)
 Inductive memref := MOrig (m : Z) | MCopy (m : Z) | MPost (m : Z).
 
-(* key under which synthesize files the new memory in PostSynthBlock.mem_map:
+(* key under which synthesize files the new memory in PostSynthBlock.mem_map
+   (Gen/SynthFrags.v g_mem_map_keyed_by_original, regenerated from the source):
    `{orig: out_mems[temp] for orig, temp in block_in.mem_map.items()}` -- the
-   ORIGINAL MemBlock.  [Defect F19, now repaired, was `MCopy m`: keyed by the
-   memories of the internal copy.] *)
-Definition mem_map_key (m : Z) : memref := MOrig m.
+   ORIGINAL MemBlock.  [Defect F19, now repaired: `out_mems = block_out.mem_map`,
+   keyed by the memories of the internal copy.] *)
+Definition mem_map_key (m : Z) : memref :=
+  if g_mem_map_keyed_by_original then MOrig m else MCopy m.
 
 Definition used_mems : list Z :=
   nodup Z.eq_dec (flat_map (fun n => match nop n with OpMemRd m | OpMemWr m => [m] | _ => [] end) (nets nl)).
